@@ -231,3 +231,198 @@ package listz
 //@   modifies l.tail.next, l.head, l.tail, l.len
 //@   ensures sEnds(l) && fresh(l.tail) && l.tail.Value == v && l.len == old(l.len) + 1
 //@   ensures old(l.len) > 0 ==> old(l.tail).next == l.tail
+
+// ---------------------------------------------------------------------------------------------------------------
+// SkipList: memory-safety level contracts. The head tower s.head is an interior object of the list.
+// towerOK is a statement about every SkipNode of the program: a level-i successor is at least i+1 levels high, and
+// distinct nodes own distinct tower arrays. It is what makes every cur.next[i] of the top-down searches in range.
+// Not expressed here: the sorted-sublist structure (needed for Remove and for the map semantics): bounded harness.
+// ---------------------------------------------------------------------------------------------------------------
+//@ spec towerOK() bool = (forall n in refs(SkipNode): forall i in 0..len(n.next): n.next[i] != nil ==> i < len(n.next[i].next)) && (forall a, b in refs(SkipNode): (a != b && len(a.next) > 0 && len(b.next) > 0) ==> a.next.arr != b.next.arr)
+//@ spec skOK(s ref) bool = s != nil && (len(s.head.next) == 0 ==> (s.level == 0 && s.len == 0 && isnil(s.head.next))) && (len(s.head.next) != 0 ==> (len(s.head.next) == 32 && 1 <= s.level && s.level <= 32))
+
+//@ func randomLevel
+//@   requires r != nil
+//@   ensures 1 <= result && result <= 32
+
+//@ func SkipList.Len
+//@   inline
+
+//@ func SkipList.Init
+//@   requires skOK(s) && towerOK()
+//@   modifies s.head.next, s.len, s.level, s.rand
+//@   ensures towerOK()
+//@   ensures fresh(s.head.next) && len(s.head.next) == 32 && s.len == 0 && s.level == 1 && s.rand != nil
+//@   ensures forall i in 0..32: s.head.next[i] == nil
+
+//@ func SkipList.Clear
+//@   requires skOK(s) && towerOK()
+//@   modifies s.head.next, s.len, s.level
+//@   ensures towerOK()
+//@   ensures fresh(s.head.next) && len(s.head.next) == 32 && s.len == 0 && s.level == 1
+//@   ensures forall i in 0..32: s.head.next[i] == nil
+
+//@ func SkipList.lazyInit
+//@   requires skOK(s) && towerOK()
+//@   modifies s.head.next, s.len, s.level, s.rand
+//@   ensures skOK(s) && towerOK() && len(s.head.next) == 32 && s.rand != nil
+//@   ensures (old(len(s.head.next)) != 0 && old(s.rand) != nil) ==> (sameSlice(s.head.next, old(s.head.next)) && s.len == old(s.len) && s.level == old(s.level) && s.rand == old(s.rand))
+//@   ensures (old(len(s.head.next)) == 0 || old(s.rand) == nil) ==> (s.len == 0 && s.level == 1)
+
+//@ func SkipList.Head
+//@   requires skOK(s)
+//@   ensures result == ite(s.len == 0, nil, s.head.next[0])
+
+// reach(cur, i): cur can be indexed at level i and below
+//@ spec canStep(cur ref, i int) bool = cur != nil && i < len(cur.next)
+
+//@ func SkipList.GetNode
+//@   noterm
+//@   noalloc
+//@   requires skOK(s) && towerOK()
+//@   ensures result != nil ==> result.key == key
+//@   ensures len(s.head.next) == 0 ==> result == nil
+//@   loop 1:
+//@     invariant -1 <= i && i < s.level && cur != nil && (i >= 0 ==> i < len(cur.next))
+//@   loop 2:
+//@     invariant 0 <= i && cur != nil && i < len(cur.next)
+
+//@ func SkipList.Get
+//@   noterm
+//@   requires skOK(s) && towerOK()
+//@   ensures len(s.head.next) == 0 ==> !result2
+
+//@ func SkipList.Range
+//@   noterm
+//@   traced f
+//@   requires skOK(s) && towerOK()
+//@   ensures s.len == 0 ==> ntr_f == 0
+//@   loop 1:
+//@     invariant cur != nil && 0 < len(cur.next) && towerOK() && skOK(s)
+
+//@ func SkipList.RangeWithStart
+//@   noterm
+//@   traced f
+//@   requires skOK(s) && towerOK()
+//@   ensures s.len == 0 ==> ntr_f == 0
+//@   loop 1:
+//@     invariant -1 <= i && i < s.level && cur != nil && 0 < len(cur.next) && (i >= 0 ==> i < len(cur.next)) && towerOK() && skOK(s)
+//@   loop 2:
+//@     invariant 0 <= i && i < s.level && cur != nil && i < len(cur.next) && towerOK() && skOK(s)
+//@   loop 3:
+//@     invariant cur != nil && 0 < len(cur.next) && towerOK() && skOK(s)
+
+// the scratch slice of predecessors shares its element heap with the towers: it must not be one of them
+//@ spec notTower(u bytes_any) bool = forall n in refs(SkipNode): len(n.next) > 0 ==> n.next.arr != u.arr
+//@ spec predsOK(u bytes_any, lo int, hi int) bool = forall j in lo..hi: u[j] != nil && j < len(u[j].next)
+
+//@ func SkipList.set
+//@   noterm
+//@   requires skOK(s) && towerOK() && s.len < 9223372036854775807
+//@   modifies s.head.next, s.len, s.level, s.rand, anyof(SkipNode.val), anyelems(SkipNode.next)
+//@   ensures skOK(s) && towerOK() && len(s.head.next) == 32
+//@   loop 1:
+//@     invariant -1 <= i && i < s.level && cur != nil && (i >= 0 ==> i < len(cur.next))
+//@     invariant len(update) == 32 && notTower(update) && predsOK(update, i + 1, s.level)
+//@     invariant towerOK() && skOK(s) && len(s.head.next) == 32 && s.rand != nil && s.len < 9223372036854775807
+//@   loop 2:
+//@     invariant 0 <= i && i < s.level && cur != nil && i < len(cur.next)
+//@     invariant len(update) == 32 && notTower(update) && predsOK(update, i + 1, s.level)
+//@     invariant towerOK() && skOK(s) && len(s.head.next) == 32 && s.rand != nil && s.len < 9223372036854775807
+//@   loop 3:
+//@     invariant s.level <= i && i <= level && level == s.level + 1 && level <= 32
+//@     invariant len(update) == 32 && notTower(update) && predsOK(update, 0, i)
+//@     invariant towerOK() && skOK(s) && len(s.head.next) == 32 && s.len < 9223372036854775807
+//@   loop 4:
+//@     invariant 0 <= i && i <= level && level <= s.level && node != nil && len(node.next) == level && node != s.head
+//@     invariant len(update) == 32 && notTower(update) && predsOK(update, 0, level)
+//@     invariant towerOK() && skOK(s) && len(s.head.next) == 32 && s.len < 9223372036854775807
+
+// ---------------------------------------------------------------------------------------------------------------
+// SkipListWithCmp: the same memory-safety level contracts (a zero value must be Init-ed with its comparator before Set).
+// ---------------------------------------------------------------------------------------------------------------
+//@ spec towerOKc() bool = (forall n in refs(SkipNodeCmp): forall i in 0..len(n.next): n.next[i] != nil ==> i < len(n.next[i].next)) && (forall a, b in refs(SkipNodeCmp): (a != b && len(a.next) > 0 && len(b.next) > 0) ==> a.next.arr != b.next.arr)
+//@ spec skOKc(s ref) bool = s != nil && (len(s.head.next) == 0 ==> (s.level == 0 && s.len == 0 && isnil(s.head.next))) && (len(s.head.next) != 0 ==> (len(s.head.next) == 32 && 1 <= s.level && s.level <= 32))
+
+//@ func SkipListWithCmp.Len
+//@   inline
+
+//@ func SkipListWithCmp.Init
+//@   requires skOKc(s) && towerOKc()
+//@   modifies s.head.next, s.len, s.level, s.rand, s.cmp
+//@   ensures towerOKc()
+//@   ensures fresh(s.head.next) && len(s.head.next) == 32 && s.len == 0 && s.level == 1 && s.rand != nil && s.cmp == keyCmp
+//@   ensures forall i in 0..32: s.head.next[i] == nil
+
+//@ func SkipListWithCmp.Clear
+//@   requires skOKc(s) && towerOKc()
+//@   modifies s.head.next, s.len, s.level
+//@   ensures towerOKc()
+//@   ensures fresh(s.head.next) && len(s.head.next) == 32 && s.len == 0 && s.level == 1
+//@   ensures forall i in 0..32: s.head.next[i] == nil
+
+//@ func SkipListWithCmp.Head
+//@   requires skOKc(s)
+//@   ensures result == ite(s.len == 0, nil, s.head.next[0])
+
+//@ func SkipListWithCmp.GetNode
+//@   noterm
+//@   noalloc
+//@   requires skOKc(s) && towerOKc()
+//@   ensures result != nil ==> app(s.cmp, result.key, key) == 0
+//@   ensures len(s.head.next) == 0 ==> result == nil
+//@   loop 1:
+//@     invariant -1 <= i && i < s.level && cur != nil && (i >= 0 ==> i < len(cur.next))
+//@   loop 2:
+//@     invariant 0 <= i && cur != nil && i < len(cur.next)
+
+//@ func SkipListWithCmp.Get
+//@   noterm
+//@   requires skOKc(s) && towerOKc()
+//@   ensures len(s.head.next) == 0 ==> !result2
+
+//@ func SkipListWithCmp.Range
+//@   noterm
+//@   traced f
+//@   requires skOKc(s) && towerOKc()
+//@   ensures s.len == 0 ==> ntr_f == 0
+//@   loop 1:
+//@     invariant (e != nil ==> 0 < len(e.next)) && towerOKc() && skOKc(s)
+
+//@ func SkipListWithCmp.RangeWithStart
+//@   noterm
+//@   traced f
+//@   requires skOKc(s) && towerOKc()
+//@   ensures s.len == 0 ==> ntr_f == 0
+//@   loop 1:
+//@     invariant -1 <= i && i < s.level && cur != nil && 0 < len(cur.next) && (i >= 0 ==> i < len(cur.next)) && towerOKc() && skOKc(s)
+//@   loop 2:
+//@     invariant 0 <= i && i < s.level && cur != nil && i < len(cur.next) && towerOKc() && skOKc(s)
+//@   loop 3:
+//@     invariant cur != nil && 0 < len(cur.next) && towerOKc() && skOKc(s)
+
+// the scratch slice of predecessors shares its element heap with the towers: it must not be one of them
+//@ spec notTowerC(u bytes_any) bool = forall n in refs(SkipNodeCmp): len(n.next) > 0 ==> n.next.arr != u.arr
+//@ spec predsOKc(u bytes_any, lo int, hi int) bool = forall j in lo..hi: u[j] != nil && j < len(u[j].next)
+
+//@ func SkipListWithCmp.set
+//@   noterm
+//@   requires skOKc(s) && towerOKc() && s.len < 9223372036854775807 && len(s.head.next) == 32 && s.rand != nil
+//@   modifies s.head.next, s.len, s.level, s.rand, anyof(SkipNodeCmp.val), anyelems(SkipNodeCmp.next)
+//@   ensures skOKc(s) && towerOKc() && len(s.head.next) == 32
+//@   loop 1:
+//@     invariant -1 <= i && i < s.level && cur != nil && (i >= 0 ==> i < len(cur.next))
+//@     invariant len(update) == 32 && notTowerC(update) && predsOKc(update, i + 1, s.level)
+//@     invariant towerOKc() && skOKc(s) && len(s.head.next) == 32 && s.rand != nil && s.len < 9223372036854775807
+//@   loop 2:
+//@     invariant 0 <= i && i < s.level && cur != nil && i < len(cur.next)
+//@     invariant len(update) == 32 && notTowerC(update) && predsOKc(update, i + 1, s.level)
+//@     invariant towerOKc() && skOKc(s) && len(s.head.next) == 32 && s.rand != nil && s.len < 9223372036854775807
+//@   loop 3:
+//@     invariant s.level <= i && i <= level && level == s.level + 1 && level <= 32
+//@     invariant len(update) == 32 && notTowerC(update) && predsOKc(update, 0, i)
+//@     invariant towerOKc() && skOKc(s) && len(s.head.next) == 32 && s.len < 9223372036854775807
+//@   loop 4:
+//@     invariant 0 <= i && i <= level && level <= s.level && node != nil && len(node.next) == level && node != s.head
+//@     invariant len(update) == 32 && notTowerC(update) && predsOKc(update, 0, level)
+//@     invariant towerOKc() && skOKc(s) && len(s.head.next) == 32 && s.len < 9223372036854775807
